@@ -432,7 +432,7 @@ func main() {
 		"traces_validated_against_impl": logs.N(),
 		"evaluations":                   logs.N(),
 		"distinct_nontrivial":           states.N(),
-		"rule":                          "a state is the entry history written so far; transitions are tlog.Writer.Write calls and tlog.Reader.Read calls on every byte prefix of the resulting file; oracles: file == concatenation of 8-byte big-endian floor-microseconds + reference frame bytes after every write, read-back equality, exactly the complete entries then an error for every prefix, injected write error returned, unencodable entry leaves no byte",
+		"rule":                          "a state is the entry history written so far; transitions are tlog.Writer.Write calls and tlog.Reader.Read calls on every byte prefix of the resulting file; oracles: file == concatenation of 8-byte big-endian microseconds (within one microsecond of the entry time) + reference frame bytes after every write, read-back equality, exactly the complete entries then an error for every prefix, injected write error returned, unencodable entry leaves no byte",
 		"logs":                          logs.N(),
 	})
 }
